@@ -49,6 +49,8 @@ def run(prog, rep, tier):
             cmp_rule(rep, "FORMULA.coefs", fwhere(f, st.node, construct="coefs[S]"), got, ref, "coefs[S]")
         except Inconclusive as e:
             rep.unk("FORMULA.coefs", fwhere(f, st.node), "left the matrix fragment: %s" % e.why)
+    from .common import hidden_state
+    hidden_state(rep, "HISTORY.regress", fwhere(f), [r_.value for r_ in S.select("return", qname=f.qname)] + [s_.value for s_ in stores], {"mean", "covariance", "p"})
     rets = S.select("return", qname=f.qname)
     if len(rets) != 1 or rets[0].value[0] != "tuple" or len(rets[0].value[1]) != 2:
         raise Inconclusive("regress: expected a single `return (coefs, intercept)`", f.node)
